@@ -312,6 +312,7 @@ type AcctObs struct {
 	Nonce uint64
 }
 type EvmEffect struct {
+	Pure    string // non-empty: the node's own before/after values break the effect contract (what, in words)
 	OK      bool
 	Gas     int64
 	Created []byte
